@@ -570,6 +570,8 @@ func init() {
 		ID: "C03",
 		Run: func(c *fw.Ctx) {
 			runInProc(c)
+			runMissingRoot(c)
+			runLinkHistories(c)
 			runWire(c)
 		},
 		Replay: func(c *fw.Ctx, w json.RawMessage) {
